@@ -10,7 +10,14 @@ tables over the finite name universe of the case (computed here with an independ
 
 Search: implementation against an independent Python oracle of the property (k-th occurrence of a name in
 the source pairs with the k-th occurrence in the reference; compared iff paired and selected; verdict =
-domains equal and no compared pair failed/raised; one callback per performed comparison)."""
+domains equal and no compared pair failed/raised; one callback per performed comparison).
+
+Directed batch (phase 5, `gen_spacedim_case`): `MeshFieldsComparator` on source / reference of DIFFERENT space
+dimension (the lower-dimensional side is rebuilt by `extend_space_dimension_to`, which de-annotates and
+re-annotates every cell-field name), crossed with relabeling, orphan points on either side, the three comparator
+flags, and a name pool with upper-case / punctuation endings and prefixes / suffixes of the cell-type names.  The
+model is name-agnostic (names are ids), so the expectation is the same `Fc.comparatorCall` / oracle applied to the
+names the INPUT objects expose."""
 from __future__ import annotations
 import copy
 import itertools
@@ -24,6 +31,12 @@ SEP = " @ "
 NAMES = ["p", "q", "r", "u", "velocity", "pressure", "", " @ ", "a @ b", "a @ b @ c", "p @ QUAD", "p @ TRIANGLE",
          "q @ LINE", "*", "a*", "[ab]", "?", "p?", "a b", " ", "@", "x @ ", " @ x", "P", "[!p]", "c0", "c0 @ QUAD"]
 PATTERNS = ["*", "p*", "?", "[ab]*", "p", "* @ *", "*a*", "", "[!p]*", "q", "velocity", "c?", "* ", "a @ b", "[*]", "\\*"]
+# phase 5: names ending in upper-case letters / punctuation, as they occur in real result files; prefixes / suffixes of the
+# cell-type names of the case's mesh are added per case (`derived_names`)
+NAMES_X = ["E", "T", "N", "ID", "LEVEL", "PRESSURE", "Temperature", "rho_E", "sigma.xx", "v-x", "k(T)", "E ", "X@", "T@E",
+           "phi[0]", "U/L", "Re", "nu_T", "S_XX", "dP/dT", "cellID", "marker#", "vel:X", "@ TRIANGLE", "x @", "p@ LINE",
+           "Q", "q2", "rho", "LE", "ANGLE ", "é", "Δ"]
+PATTERNS_X = ["*E", "[A-Z]*", "*[A-Z]", "T*", "?D", "*_*", "* @", "E"]
 OUT = ["pass", "fail", "raise"]
 COMPARED = {"passed", "failed", "error"}
 
@@ -232,7 +245,10 @@ def run_impl(case):
     incl, excl = filt_make(case["incl"]), filt_make(case["excl"])
     if case["kind"] == "meshcmp":
         from fieldcompare.mesh import MeshFieldsComparator
-        comparator = MeshFieldsComparator(src, ref, field_inclusion_filter=incl, field_exclusion_filter=excl)
+        fl = case.get("flags", [False, False, False])
+        comparator = MeshFieldsComparator(src, ref, disable_mesh_reordering=fl[0], disable_orphan_point_removal=fl[1],
+                                          disable_space_dimension_matching=fl[2],
+                                          field_inclusion_filter=incl, field_exclusion_filter=excl)
     else:
         comparator = FieldDataComparator(src, ref, incl, excl)
     try:
@@ -437,6 +453,128 @@ def gen_case(rng, meshes):
     return case
 
 
+# ------------------------------------------------------------------ phase 5: differing space dimensions x name classes
+
+def low_dim_meshes():
+    """hand-made meshes with 1 or 2 coordinate columns (so that a zero-padded copy has a higher space dimension),
+    1-3 cell types each; distinct, well separated points"""
+    return [
+        {"dim": 2, "points": [[0.0, 0.0], [1.0, 0.0], [1.0, 1.0], [0.0, 1.0]],
+         "cells": [["TRIANGLE", [[0, 1, 2], [0, 2, 3]]], ["LINE", [[0, 1], [1, 2], [2, 3], [3, 0]]]], "pf": [], "cf": []},
+        {"dim": 2, "points": [[0.0, 0.0], [1.0, 0.0], [1.0, 1.0], [0.0, 1.0], [2.0, 0.5], [3.0, 0.5]],
+         "cells": [["QUAD", [[0, 1, 2, 3]]], ["TRIANGLE", [[1, 4, 2]]], ["LINE", [[4, 5]]]], "pf": [], "cf": []},
+        {"dim": 1, "points": [[0.0], [0.5], [1.5], [3.0]],
+         "cells": [["LINE", [[0, 1], [1, 2], [2, 3]]], ["VERTEX", [[0], [3]]]], "pf": [], "cf": []},
+        {"dim": 2, "points": [[0.0, 0.0], [2.0, 0.0], [0.0, 2.0], [2.0, 2.0], [4.0, 0.0], [4.0, 2.0]],
+         "cells": [["PIXEL", [[0, 1, 2, 3], [1, 4, 3, 5]]], ["VERTEX", [[4]]]], "pf": [], "cf": []},
+        {"dim": 2, "points": [[-1.0, 0.0], [0.0, 0.25], [1.0, 0.0], [0.0, 1.5]],
+         "cells": [["TRIANGLE", [[0, 1, 3], [1, 2, 3]]]], "pf": [], "cf": []},
+        {"dim": 1, "points": [[-2.0], [-1.0], [0.25]],
+         "cells": [["LINE", [[0, 1], [1, 2]]]], "pf": [], "cf": []},
+        {"dim": 2, "points": [[0.0, 0.0], [1.0, 0.0], [2.0, 0.0], [0.0, 1.0], [1.0, 1.0], [2.0, 1.0]],
+         "cells": [["LINE", [[0, 3], [2, 5]]], ["QUAD", [[0, 1, 4, 3], [1, 2, 5, 4]]]], "pf": [], "cf": []},
+    ]
+
+
+def pad_dim(lm, dim):
+    """the same mesh with zero coordinate columns appended up to `dim` columns"""
+    out = copy.deepcopy(lm)
+    out["points"] = [list(p) + [0.0] * (dim - lm["dim"]) for p in lm["points"]]
+    out["dim"] = dim
+    return out
+
+
+def derived_names(lm):
+    """prefixes / suffixes of the cell-type names of the mesh (and variations): the names a helper that handles the
+    ' @ <CELLTYPE>' annotation by character classes, slicing or substring search would confuse"""
+    out = []
+    for t, _ in lm["cells"]:
+        out += [t, t.lower(), t.capitalize()]
+        out += [t[k:] for k in range(1, len(t))] + [t[:k] for k in range(1, len(t))]
+        out += ["p" + t[k:] for k in range(1, len(t), 2)] + [t[-1] + " ", "@" + t, t + "@", "x_" + t, t[-2:] + t[-2:], "a @ " + t]
+    return sorted(set(out))
+
+
+FLAG_CYCLE = [[False, False, False]] * 5 + [[True, False, False], [False, True, False], [False, False, True]]
+
+
+def gen_spacedim_case(rng, i, lows):
+    """directed: i enumerates (which side has the lower space dimension, relabeling, orphan points, comparator flags,
+    mesh); names / filters / outcomes are drawn from rng.  len(lows) is coprime to 2*2*3*8, so i = 0 .. 96*len(lows)-1
+    visits every combination"""
+    low_is_src = i % 2 == 0
+    relabeled = (i // 2) % 2 == 1
+    orphan = ["none", "low", "high"][(i // 4) % 3]
+    flags = list(FLAG_CYCLE[(i // 12) % len(FLAG_CYCLE)])
+    lm = lows[i % len(lows)]
+    mode = "real" if rng.random() < 0.25 else "stub"
+    if mode == "real":
+        orphan = "none"      # real mode measures the pair outcomes on the INPUT arrays: keep the point counts equal
+    same_dim = rng.random() < 0.1                                   # control: the new names without the dimension gap
+    high = pad_dim(lm, lm["dim"] if same_dim else rng.randint(lm["dim"] + 1, 3))
+    low = lm
+    if relabeled:
+        if rng.random() < 0.5:
+            high = meshgen.relabel(rng, high)
+        else:
+            low = meshgen.relabel(rng, low)
+    if orphan == "low":
+        low = _with_orphans(rng, low)
+    elif orphan == "high":
+        high = _with_orphans(rng, high)
+    lm_s, lm_r = (low, high) if low_is_src else (high, low)
+    special = derived_names(lm) + NAMES_X
+    pool = rng.sample(special, rng.randint(2, 6)) + rng.sample(NAMES, rng.randint(0, 2))
+    pool = list(dict.fromkeys(pool))
+    cf_s = rng.sample(pool, rng.randint(1, min(3, len(pool))))
+    if not any(n in special for n in cf_s):
+        cf_s[0] = rng.choice([n for n in pool if n in special])
+        cf_s = list(dict.fromkeys(cf_s))
+    r = rng.random()
+    if r < 0.6:
+        cf_r = list(cf_s)
+        rng.shuffle(cf_r)
+    elif r < 0.8:
+        cf_r = [n for n in cf_s if rng.random() < 0.7] + [n for n in pool if n not in cf_s and rng.random() < 0.3]
+    else:
+        cf_r = rng.sample(pool, rng.randint(0, min(3, len(pool))))
+    pf_s = rng.sample(pool, rng.randint(0, min(3, len(pool))))
+    pf_r = list(pf_s) if rng.random() < 0.6 else rng.sample(pool, rng.randint(0, min(3, len(pool))))
+    case = {"kind": "meshcmp", "lm_s": lm_s, "lm_r": lm_r, "pf_s": pf_s, "cf_s": cf_s, "pf_r": pf_r, "cf_r": cf_r,
+            "mode": mode, "flags": flags,
+            "xdim": {"dims": [lm_s["dim"], lm_r["dim"]], "relabeled": relabeled, "orphan": orphan}}
+    src_o, ref_o = build(dict(case, mode="stub"))
+    src, ref = field_names(src_o), field_names(ref_o)
+    ns, nr = len(src), len(ref)
+    if mode == "real":
+        case["pal_s"] = [rng.randint(1, 3) for _ in range(max(ns, 1) + 8)]
+        case["pal_r"] = [rng.randint(1, 3) for _ in range(max(nr, 1) + 8)]
+    else:
+        case["out"] = gen_out(rng, ns, nr)
+    stripped = [strip(n) for n in src + ref]
+    if rng.random() < 0.35:
+        case["incl"], case["excl"] = {"type": "all"}, {"type": "none"}
+    else:
+        case["incl"] = _gen_filter_x(rng, stripped, allow_all=True)
+        case["excl"] = _gen_filter_x(rng, stripped, allow_all=False) if rng.random() < 0.7 else {"type": "none"}
+    return case
+
+
+def _with_orphans(rng, lm):
+    """1-2 extra unconnected points appended (far away from the connected ones); the meshes carry no field arrays"""
+    out = copy.deepcopy(lm)
+    for k in range(rng.randint(1, 2)):
+        out["points"].append([10.0 + k + rng.randint(0, 3) * 0.25 for _ in range(lm["dim"])])
+    return out
+
+
+def _gen_filter_x(rng, stripped_names, allow_all):
+    f = gen_filter(rng, stripped_names, allow_all=allow_all)
+    if f["type"] == "glob" and rng.random() < 0.6:
+        f = {"type": "glob", "patterns": rng.sample(PATTERNS + PATTERNS_X, rng.randint(1, 3))}
+    return f
+
+
 # ------------------------------------------------------------------ evaluation
 
 def check_case(case, obs, rep):
@@ -517,6 +655,10 @@ def tags_of(case, obs):
     t += ["has-" + s for s in sorted(sts)]
     if any(SEP in n for n in obs["src"] + obs["ref"]):
         t.append("annotated-names")
+    if "xdim" in case:
+        x = case["xdim"]
+        t += [f"spacedim-{x['dims'][0]}v{x['dims'][1]}", "xdim-relabeled" if x["relabeled"] else "xdim-same-order",
+              "xdim-orphans-" + x["orphan"], "xdim-flags-" + "".join(str(int(b)) for b in case["flags"])]
     return t
 
 
@@ -653,7 +795,8 @@ def finite_tables(ctx):
 
 def run(ctx):
     ctx.rule = ("case = (carrier: custom FieldData with duplicate names / TabularFields / MeshFields with point+cell fields on "
-                "1-3 cell types / MeshFieldsComparator on a relabeled reference; source and reference name lists incl. "
+                "1-3 cell types / MeshFieldsComparator on a relabeled reference, on source / reference of different space "
+                "dimension, with orphan points and comparator flags; source and reference name lists incl. "
                 "adversarial names; include + exclude filter as explicit set or PatternFilter globs; domain verdict; outcome "
                 "pass/fail/raise per (source field, reference field) pair via stub selector, or real values with "
                 "DefaultEquality); non-trivial = domains equal, at least one report entry and at least one common name; "
@@ -690,6 +833,16 @@ def run(ctx):
         cases = [gen_case(rng, meshes) for _ in range(min(CH, n - done))]
         evaluate(ctx, cases)
         done += len(cases)
+    # directed: differing space dimensions x relabeling x orphan points x comparator flags x name classes
+    lows = low_dim_meshes()
+    nx = ctx.scale(96 * len(lows) * 2, 96 * len(lows) * 20)
+    for i0 in range(0, nx, CH):
+        evaluate(ctx, [gen_spacedim_case(rng, i, lows) for i in range(i0, min(i0 + CH, nx))])
+    ctx.extra["spacedim_directed_cases"] = nx
+    ctx.notes.append("directed part: MeshFieldsComparator on source / reference of different space dimension (either role), "
+                     "x relabeled / same order x orphan points on either side x the three comparator flags x field names "
+                     "with upper-case / punctuation endings and prefixes / suffixes of the mesh's cell-type names; "
+                     "expected report = the model / oracle on the names exposed by the input objects")
     ex = exhaustive_small(ctx, ["p", "q @ LINE", "a*"] if ctx.tier == "quick" else ["p", "q @ LINE", "a*", ""])
     for i in range(0, len(ex), CH):
         evaluate(ctx, ex[i:i + CH])
